@@ -78,10 +78,12 @@ def cComplete (i : SInput) (t : STrace) : Bool :=
 def brokenFails (w : Nat) (t : STrace) : Nat :=
   (t.sink.filter fun p => p.1 == (⟨w, .broken, .st .fail⟩ : SEv)).length
 
-def brokenErrors (w : Nat) (t : STrace) : Nat :=
-  (t.log.filter fun e => match e with
-    | (j, .call (.outcome .error .broken) _) => j == w + 1
-    | _ => false).length
+/-- the event is thread `w+1` reporting the errored `broken-runner` test -/
+def isBrokenError (w : Nat) : Ev → Bool
+  | (j, .call (.outcome .error .broken) _) => j == w + 1
+  | _ => false
+
+def brokenErrors (w : Nat) (t : STrace) : Nat := (t.log.filter (isBrokenError w)).length
 
 def cBrokenRunner (i : SInput) (t : STrace) : Bool :=
   (List.range (nWorkers i)).all fun w =>
@@ -92,10 +94,12 @@ def cBrokenRunner (i : SInput) (t : STrace) : Bool :=
       | .stream => t.result != some .returned || brokenFails w t == (if wk.boom then 1 else 0)
       | .suite => !(t.spawned.contains w && wk.faults.isEmpty) || brokenErrors w t == (if wk.boom then 1 else 0)
 
-def mainStops (t : STrace) : List Bool :=
-  t.log.filterMap fun e => match e with
-    | (0, .call (.ctl .stop) r) => some r
-    | _ => none
+/-- a `stop()` call of main (thread 0) on the caller's result, with "raised" -/
+def stopOfMain : Ev → Option Bool
+  | (0, .call (.ctl .stop) r) => some r
+  | _ => none
+
+def mainStops (t : STrace) : List Bool := t.log.filterMap stopOfMain
 
 def causeOk (i : SInput) : Cause → Bool
   | .interrupt => i.intr.isSome
